@@ -169,13 +169,22 @@ func (c *Ctx) rulePrunePred() {
 // `m[sel.Sel] = true` for sel the *ast.SelectorExpr being visited by a walk callback, made unconditionally in the
 // selector case: "this identifier is the Sel of a selector and is handled with it".
 func (c *Ctx) isSelectorIdentSet(m ssa.Value) bool {
+	is, uncond := c.selectorIdentSet(m)
+	return is && uncond
+}
+
+// selectorIdentSet: is: every update of m is `m[sel.Sel] = true` for the selector being visited; uncond: none of
+// them depends on anything but the kind of the visited node (in particular not on what the selector path found:
+// an identifier that was handled with its selector - reported, suppressed or fine - is not looked at again).
+func (c *Ctx) selectorIdentSet(m ssa.Value) (is, uncond bool) {
 	P := c.P
 	mt, ok := m.Type().Underlying().(*types.Map)
 	if !ok || typeStr(mt.Key()) != "*go/ast.Ident" {
-		return false
+		return false, false
 	}
 	md := P.DescDeep(m)
 	n, okAll := 0, true
+	uncond = true
 	for _, fn := range P.ModFuncs {
 		allInstrs(fn, func(b *ssa.BasicBlock, ins ssa.Instruction) {
 			mu, isMU := ins.(*ssa.MapUpdate)
@@ -209,17 +218,21 @@ func (c *Ctx) isSelectorIdentSet(m ssa.Value) bool {
 				return
 			}
 			for _, l := range P.BlockGuards(b) {
-				if l.Kind == "rangeloop" || l.Kind == "rangefunc" || nilCheck(l) {
+				if l.Kind == "rangeloop" || l.Kind == "rangefunc" {
+					continue
+				}
+				// nil tests of syntax (node.Sel != nil), not of what a finder returned
+				if v := nilCheckedValue(l); v != nil && strings.Contains(typeStr(v.Type()), "go/ast.") {
 					continue
 				}
 				if x, t, _ := typeAssertOK(l); x != nil && strings.HasPrefix(typeStr(t), "*go/ast.") {
 					continue
 				}
-				okAll = false
+				uncond = false
 			}
 		})
 	}
-	return n > 0 && okAll
+	return n > 0 && okAll, uncond
 }
 
 func (c *Ctx) ruleGateBeforeDedup(pkgs ...string) {
@@ -233,9 +246,10 @@ func (c *Ctx) ruleGateBeforeDedup(pkgs ...string) {
 					if !ok {
 						return
 					}
-					if c.isSelectorIdentSet(mu.Map) {
+					if is, uncond := c.selectorIdentSet(mu.Map); is {
 						// not a once-per-file map: the set of identifiers that are the Sel of a visited selector
-						c.ok("QUALIFIED-SET", FuncName(fn), P.Pos(mu.Pos()), "marks the Sel identifier of the selector expression being visited (handled by the selector case)")
+						c.check(uncond, "QUALIFIED-SET", FuncName(fn), P.Pos(mu.Pos()), "marks the Sel identifier of the selector expression being visited (handled by the selector case), whatever that case finds",
+							"the Sel identifier of a visited selector is marked as handled only under a condition on what the selector path found: a reference whose report was suppressed (or that is allowed) is examined again as a bare identifier, at another position")
 						return
 					}
 					n++
